@@ -197,6 +197,9 @@ var ledgerSpecs = []ledgerSpec{
 		return wide(tier, []ledgerRun{
 			{"drain-to-zero+two-truncations", ledger.Cfg{Nodes: []string{"G"}, Supply: sp(10, 0), Menu: []ledger.TxSpec{tx("tz", "A", "B", 6, 0), cf("c4"), cf("c5"), cf("c6")}, Hidden: []ledger.TxSpec{t1}, Truncate: true, Prefix: drain, Props: only("C06")}, d + 2, 0, 0},
 			{"two-nodes", ledger.Cfg{Nodes: []string{"G", "N1"}, Supply: sp(10, 0), Menu: []ledger.TxSpec{t1, t2, t3, tx("tself", "A", "A", 1, 0)}, Props: only("C06")}, d, 0, 0},
+			// sub-unit amounts whose running sums land exactly on a whole unit, on the receiving and on the spending side
+			{"fractions-adding-up-to-a-unit", ledger.Cfg{Nodes: []string{"G"}, Supply: sp(10, 0), Menu: []ledger.TxSpec{tx("q1", "R", "A", 3, 0), tx("q2", "R", "A", 0, 500_000_000_000_000_000), tx("q3", "R", "A", 0, 500_000_000_000_000_000),
+				tx("q4", "R", "A", 0, 250_000_000_000_000_000), tx("q5", "A", "B", 0, 750_000_000_000_000_000), tx("q6", "A", "B", 0, 250_000_000_000_000_000)}, Props: only("C06")}, d + 1, 0, 0},
 			// amounts at the 2^64 edge: recirculated funds make a wallet's gross inflow exceed 2^64 although every balance is representable
 			{"huge-amounts", ledger.Cfg{Nodes: []string{"G"}, Supply: sp(1<<64-1, 0), Menu: []ledger.TxSpec{tx("h1", "R", "A", 1<<63, 0), tx("h2", "A", "R", 1<<63, 0), tx("h3", "R", "A", 1<<63, 999_999_999_999_999_999)}, Props: only("C06")}, d, 0, 0},
 			{"truncated", ledger.Cfg{Nodes: []string{"G"}, Supply: sp(10, 0), Menu: []ledger.TxSpec{t1, t3, t5, t7}, Crafted: []ledger.TxSpec{tx("side", "R", "B", 1, 0)}, Truncate: true, Props: only("C06")}, d + 1, 0, 0},
@@ -222,6 +225,10 @@ var ledgerSpecs = []ledgerSpec{
 			{"interrupted-truncation", ledger.Cfg{Nodes: []string{"G"}, Supply: sp(10, 0), Menu: []ledger.TxSpec{t3, cf("c4")}, Hidden: []ledger.TxSpec{t1}, Truncate: true, TruncCancel: []int{1, 2, 3, 4, 5, 6},
 				Prefix: []string{"P:0:t1", "P:0:c1", "P:0:c2", "P:0:c3"}, Props: only("C07")}, 3, 0, 0},
 			{"two-nodes", ledger.Cfg{Nodes: []string{"G", "N1"}, Supply: sp(10, 0), Menu: []ledger.TxSpec{t1, t3, t7}, Truncate: true, MaxProposeNodes: 1, Props: only("C07")}, d, 0, 0},
+			// a paid contract (data AND spice) in the truncated region: it moves funds like a transfer
+			{"paid-contract+truncate", ledger.Cfg{Nodes: []string{"G"}, Supply: sp(10, 0), Menu: []ledger.TxSpec{tx("tz2", "A", "B", 6, 0), cf("c7"), tx("tb", "B", "A", 5, 0)},
+				Hidden: []ledger.TxSpec{t1, {Label: "pc", From: "A", To: "B", Cur: 5, Data: "paid contract"}, cf("c4"), cf("c5"), cf("c6")}, Truncate: true,
+				Prefix: []string{"P:0:t1", "P:0:pc", "P:0:c4", "P:0:c5", "P:0:c6"}, Props: only("C07")}, 3, 0, 0},
 			// "later transfers are validated against the same funds as before": a stale overdrawing side tip whose parents
 			// get checkpointed (node 0 holds mx on p1 while node 1's chain grows past it) must still be dropped, not built
 			// upon, when the next proposal judges it against the checkpointed funds (the covered-spend oracle of C01)
